@@ -313,3 +313,137 @@ func sweepExhaustiveRule(c *Ctx, rule, pkg, recv, name, why string) {
 	}
 	c.Check(len(loops) > 0 && bad == "", rule, pkg+"."+recv+"."+name, p.Decl(f).Pos(), "every loop runs to exhaustion", "a loop of the sweep can be left early ("+bad+"): "+why)
 }
+
+// uniqueNamesRule: a connector method that can be called more than once and adds
+// a component under a name it chooses itself must make that name depend on
+// something that changes from call to call (an index, a counter). A constant
+// name gives two switches one name: they share ports by name and one engine
+// handler, and the first flit that crosses between them is "sent back to its
+// source" (or registration fails).
+func uniqueNamesRule(c *Ctx, rule string) {
+	p := c.P
+	n := 0
+	for _, fn := range p.SrcFuncs(func(pp string) bool { return strings.HasPrefix(pp, ModPath+"/noc/networking") }) {
+		if fn.Signature.Recv() == nil || fn.Parent() != nil {
+			continue
+		}
+		for _, b := range fn.Blocks {
+			for _, in := range b.Instrs {
+				call, ok := in.(ssa.CallInstruction)
+				if !ok {
+					continue
+				}
+				nm, pk := calleeNamePkg(call)
+				if !strings.HasPrefix(nm, "AddSwitchWithName") || !strings.HasSuffix(pk, "/networkconnector") {
+					continue
+				}
+				args := call.Common().Args
+				if len(args) < 2 {
+					continue
+				}
+				n++
+				_, isConst := args[1].(*ssa.Const)
+				// a name handed in by the caller is the caller's responsibility
+				fromParam := false
+				for y := range DataSlice(fn, args[1]) {
+					if pv, isP := y.(*ssa.Parameter); isP && pv != fn.Params[0] {
+						fromParam = true
+					}
+				}
+				c.Check(!isConst || fromParam, rule, SSAFuncKey(fn)+"#"+nm, in.Pos(), "the component name varies from call to call",
+					"the method adds a switch under a constant name: a second call creates a second switch with the same name, the two share ports by name and one engine handler, and traffic between them is misrouted (or registration with a simulation fails)")
+			}
+		}
+	}
+	c.Check(n >= 3, rule, "instances", 0, itoa(n)+" switch-naming call sites inspected", "fewer switch-naming call sites found than confirmed by hand")
+}
+
+// pipelineDepthRule: a queueing.Pipeline with zero stages accepts items and never
+// releases them. A component that sizes a pipeline from a configuration field
+// must treat the value 0 somewhere — bypass the pipeline (as the write-back cache
+// does) or reject the configuration — otherwise a builder-accepted latency of 0
+// yields a component that swallows every request without an error.
+func pipelineDepthRule(c *Ctx, rule string, pred func(string) bool, floor int) {
+	p := c.P
+	n := 0
+	byPkg := map[string][]*ssa.Function{}
+	for _, fn := range p.SrcFuncs(pred) {
+		byPkg[pkgOfFn(fn)] = append(byPkg[pkgOfFn(fn)], fn)
+	}
+	for _, fn := range p.SrcFuncs(pred) {
+		for _, b := range fn.Blocks {
+			for _, in := range b.Instrs {
+				call, ok := in.(*ssa.Call)
+				if !ok {
+					continue
+				}
+				nm, pk := calleeNamePkg(call)
+				if pk != ModPath+"/queueing" || !strings.HasPrefix(nm, "NewPipeline") || len(call.Common().Args) < 2 {
+					continue
+				}
+				// the depth is a configuration field, or a product of configuration fields
+				var factors []*types.Var
+				var collect func(v ssa.Value)
+				collect = func(v ssa.Value) {
+					switch a := stripConv(v).(type) {
+					case *ssa.UnOp:
+						if f := FieldOf(a.X); f != nil {
+							factors = append(factors, f)
+						}
+					case *ssa.Field:
+						if f := FieldOf(a); f != nil {
+							factors = append(factors, f)
+						}
+					case *ssa.BinOp:
+						if a.Op == token.MUL {
+							collect(a.X)
+							collect(a.Y)
+						}
+					}
+				}
+				collect(call.Common().Args[1])
+				for _, depthF := range factors {
+					if depthF.Pkg() == nil || depthF.Pkg().Path() != pkgOfFn(fn) {
+						continue
+					}
+					n++
+					handled := false
+					for _, g := range byPkg[pkgOfFn(fn)] {
+						for _, b2 := range g.Blocks {
+							for _, in2 := range b2.Instrs {
+								bo, isBO := in2.(*ssa.BinOp)
+								if !isBO {
+									continue
+								}
+								switch bo.Op {
+								case token.EQL, token.NEQ, token.LSS, token.LEQ, token.GTR, token.GEQ:
+								default:
+									continue
+								}
+								for _, pair := range [][2]ssa.Value{{bo.X, bo.Y}, {bo.Y, bo.X}} {
+									cst, isC := pair[1].(*ssa.Const)
+									if !isC || !(constIs(cst, "0") || constIs(cst, "1")) {
+										continue
+									}
+									if u, isU := stripConv(pair[0]).(*ssa.UnOp); isU {
+										if f := FieldOf(u.X); f != nil && sameObj(f, depthF) {
+											handled = true
+										}
+									}
+									if fv, isF := stripConv(pair[0]).(*ssa.Field); isF {
+										if f := FieldOf(fv); f != nil && sameObj(f, depthF) {
+											handled = true
+										}
+									}
+								}
+							}
+						}
+					}
+					c.Check(handled, rule, SSAFuncKey(fn)+"#NewPipeline("+depthF.Name()+")", in.Pos(), "the configuration value 0 is treated somewhere in the package",
+						"a pipeline is sized from "+depthF.Name()+" and no code in the package compares that field with 0: the builder accepts 0, a zero-stage pipeline accepts items and never releases them, and every request handed to it is swallowed without an error")
+				}
+			}
+		}
+	}
+	c.Check(n >= floor, rule, "instances", 0, itoa(n)+" pipelines sized from configuration inspected", "fewer configuration-sized pipelines found than confirmed by hand")
+}
